@@ -145,7 +145,13 @@ func (g *Generator) AdjustEnv(env []*nri.KeyValue) {
 	mod := map[string]*nri.KeyValue{}
 
 	for _, e := range env {
-		key, _ := nri.IsMarkedForRemoval(e.Key)
+		key, marked := nri.IsMarkedForRemoval(e.Key)
+		if prev, ok := mod[key]; ok && marked {
+			if _, prevMarked := prev.IsMarkedForRemoval(); !prevMarked {
+				// setting a variable wins over removing it, whatever their order
+				continue
+			}
+		}
 		mod[key] = e
 	}
 
@@ -156,6 +162,8 @@ func (g *Generator) AdjustEnv(env []*nri.KeyValue) {
 		for _, e := range old {
 			keyval := strings.SplitN(e, "=", 2)
 			if len(keyval) < 2 {
+				// not a variable we could adjust: keep it as it is
+				g.AddMultipleProcessEnv([]string{e})
 				continue
 			}
 			if m, ok := mod[keyval[0]]; ok {
@@ -194,10 +202,14 @@ func (g *Generator) AdjustAnnotations(annotations map[string]string) error {
 	if annotations, err = g.filterAnnotations(annotations); err != nil {
 		return err
 	}
-	for k, v := range annotations {
+	// removals first, so that setting a key wins over removing it whatever the map order
+	for k := range annotations {
 		if key, marked := nri.IsMarkedForRemoval(k); marked {
 			g.RemoveAnnotation(key)
-		} else {
+		}
+	}
+	for k, v := range annotations {
+		if _, marked := nri.IsMarkedForRemoval(k); !marked {
 			g.AddAnnotation(k, v)
 		}
 	}
@@ -342,12 +354,18 @@ func (g *Generator) AdjustOomScoreAdj(score *nri.OptionalInt) {
 
 // AdjustDevices adjusts the (Linux) devices in the OCI Spec.
 func (g *Generator) AdjustDevices(devices []*nri.LinuxDevice) {
+	// removals first, so that adding a device wins over removing it whatever the list order
+	for _, d := range devices {
+		if key, marked := d.IsMarkedForRemoval(); marked {
+			g.RemoveDevice(key)
+		}
+	}
 	for _, d := range devices {
 		key, marked := d.IsMarkedForRemoval()
-		g.RemoveDevice(key)
 		if marked {
 			continue
 		}
+		g.RemoveDevice(key)
 		g.AddDevice(d.ToOCI())
 		major, minor, access := &d.Major, &d.Minor, d.AccessString()
 		g.AddLinuxResourcesDevice(true, d.Type, major, minor, access)
@@ -391,10 +409,16 @@ func (g *Generator) AdjustMounts(mounts []*nri.Mount) error {
 		return nil
 	}
 
-	propagation := ""
+	// removals first, so that adding a mount wins over removing it whatever the list order
 	for _, m := range mounts {
 		if destination, marked := m.IsMarkedForRemoval(); marked {
 			g.RemoveMount(destination)
+		}
+	}
+
+	propagation := ""
+	for _, m := range mounts {
+		if _, marked := m.IsMarkedForRemoval(); marked {
 			continue
 		}
 
